@@ -97,7 +97,7 @@ func init() {
 		m := e.heapMap("F_sync.Cond.L", "(Array Int Iface)")
 		l := sel(e.hget(st, m), args[0].T)
 		id := "(i_val " + l + ")"
-		lv := Val{T: l, Typ: types.NewInterfaceType(nil, nil), Prov: args[0].Prov + ".L"}
+		lv := Val{T: l, Typ: types.NewInterfaceType(nil, nil), Prov: args[0].Prov + ".L", Root: args[0].Root}
 		e.lockRelease(fr, st, id, lv, pos)
 		e.lockAcquire(fr, st, id, lv, pos)
 		return Val{T: "0"}
